@@ -454,7 +454,7 @@ func cmdCheck(args []string) {
 	bounded := append([]string(nil), ps.Bounded...)
 	for _, cf := range ps.Conformance {
 		parts := strings.Split(cf, ":")
-		if len(parts) != 3 {
+		if len(parts) < 3 {
 			continue
 		}
 		src, err := os.ReadFile(filepath.Join(vd, "conformance", parts[0]+".go.txt"))
@@ -462,9 +462,16 @@ func cmdCheck(args []string) {
 			bounded = append(bounded, "conformance run "+parts[0]+": source missing")
 			continue
 		}
+		// "<name>:<pkgdir>:<Test>[:<quick bound>:<thorough bound>]"
 		maxLen := "5"
 		if thorough {
 			maxLen = "6"
+		}
+		if len(parts) >= 5 {
+			maxLen = parts[3]
+			if thorough {
+				maxLen = parts[4]
+			}
 		}
 		os.Setenv("GOVC_CONF_MAXLEN", maxLen)
 		tC := time.Now()
